@@ -15,6 +15,29 @@ def run(ctx):
     f1 = common.corr_stream(ctx, "all", d["cases"]["all"], common.SCRIPT_HEADER, "check_all", "Script.slint_all (mock registries through Lint*Ex)", shard=100)
     if not mon:
         common.report_disagreements(ctx, "all", f1, "Framework.Core.lint_all", [])
+    # static: the hypothesis of c01_status_range (bodies return defined statuses only, never nil) for the lints of this tree
+    sf = common.harness_json(["statusfacts"], timeout=900)["data"]["facts"]
+    gd = common.gendir("C01")
+    import os
+    from common import cq_bytes, cq_list
+    with open(os.path.join(gd, "Obl_C01_statuses.v"), "w") as f:
+        f.write("From ZL Require Import Base.Bytes Framework.Core.\nFrom Coq Require Import ZArith List.\nImport ListNotations.\nOpen Scope Z_scope.\n")
+        f.write("(* status constants that can flow into a result of each lint; lints with a status the translator could not resolve; lints that can return nil (go/ssa translator, regenerated) *)\n")
+        f.write("Definition may_return : list (bytes * list Z) := [\n  " + ";\n  ".join(
+            "(%s, [%s])" % (cq_bytes(x["Name"]), "; ".join(str(s) for s in (x["MayReturn"] or []))) for x in sf) + "\n].\n")
+        f.write("Definition unresolved : list bytes := %s.\n" % cq_list([cq_bytes(x["Name"]) for x in sf if x["StatusUnknown"]]))
+        f.write("Definition may_return_nil : list bytes := %s.\n" % cq_list([cq_bytes(x["Name"]) for x in sf if x["NilResult"]]))
+        f.write("Lemma defined_all : forallb (fun f => forallb defined_status (snd f)) may_return = true.\nProof. vm_compute. reflexivity. Qed.\n")
+        f.write("Lemma resolved_all : match unresolved with nil => true | _ => false end = true.\nProof. vm_compute. reflexivity. Qed.\n")
+        f.write("Lemma never_nil : match may_return_nil with nil => true | _ => false end = true.\nProof. vm_compute. reflexivity. Qed.\n")
+    ok, outp = common.coqc(os.path.join(gd, "Obl_C01_statuses.v"))
+    ctx.oblige("Obl_C01_statuses: every status that can flow into a result of a lint of this tree is a constant and a defined status, and no Execute returns nil (%d lints)" % len(sf), ok, outp[-1200:])
+    if not ok:
+        for x in sf:
+            bad = [s for s in (x["MayReturn"] or []) if s < 1 or s > 7]
+            if bad or x["StatusUnknown"] or x["NilResult"]:
+                ctx.violation("static-status:" + x["Name"], "lint %s: undefined status constants %s, non-constant status at %s, nil result at %s" % (x["Name"], bad, x["StatusUnknown"][:3], x["NilResult"][:3]),
+                              {"theorem_or_correspondence": "Gen.Obl_C01_statuses", "lint": x["Name"]}, found_input=False)
     ctx.cov["rule"] = ("all: random mock registries (0-6 scripted lints of one kind, incl. panicking/nil/out-of-range bodies, config errors) through "
                       "LintCertificateEx / LintRevocationListEx / LintOcspResponseEx vs Core.lint_all; monitor: the real registry (global and filtered) on corpus "
                       "objects, checking count, non-nil, status range, metadata, flags and version; distinct = outcome classes")
